@@ -913,9 +913,32 @@ def catalogue():
                     "v": cs.choice("v", [0, 7])})
     add("Grid.clone", [G], lambda a, o: a.g.clone(o["dt"]),
         lambda cs: {"dt": cs.choice("dt", [None, np.float64, np.int32])})
-    add("Grid.apply", [G], lambda a, o: a.g.apply(np.sqrt if o["f"] else
-                                                   np.negative),
-        lambda cs: {"f": cs.flip("f", 50)}, weight=1)
+    def grid_apply(a, o):
+        # the function handed to apply may work in place on what it is given
+        # (the clean-then-transform idiom): the grid itself is an argument of
+        # apply and keeps its cells
+        def clean_then_log(x):
+            x[x < 2] = 1
+            return np.log(x)
+
+        def halve_in_place(x, out_of_place=False):
+            if out_of_place:
+                return x / 2
+            x //= 2
+            return x
+        f = o["f"]
+        if f == "sqrt":
+            return a.g.apply(np.sqrt)
+        if f == "negative":
+            return a.g.apply(np.negative)
+        if f == "clean":
+            return a.g.apply(clean_then_log)
+        if f == "halve":
+            return a.g.apply(halve_in_place)
+        return a.g.apply(halve_in_place, out_of_place=True)
+    add("Grid.apply", [G], grid_apply,
+        lambda cs: {"f": cs.choice("f", ["sqrt", "negative", "clean", "halve",
+                                         "halve_kw"])}, weight=2)
     add("Grid.interpolate", [G, ("c", "coarse", None)],
         lambda a, o: a.c.interpolate(a.g, method=o["m"]),
         lambda cs: {"m": cs.choice("m", ["linear", "nearest"])}, weight=1)
@@ -1507,9 +1530,16 @@ def session_results(seed, idx, order_seed=None):
     import matplotlib
     matplotlib.use("Agg")
     cs = ChoiceStream(seed=seed_for(seed, "C18", idx))
+    from ..core import Violation
     collect = {}
-    run_session(cs, EventLog(), _MiniCtx(), order_seed=order_seed,
-                collect=collect)
+    try:
+        run_session(cs, EventLog(), _MiniCtx(), order_seed=order_seed,
+                    collect=collect)
+    except Violation as v:
+        # an oracle fired in this execution of the session (it did not in the
+        # batch): recorded, the comparison reports it
+        collect["__violation__"] = ["violation", v.signature,
+                                    str(v.detail)[:600], None]
     return collect
 
 
@@ -1529,6 +1559,11 @@ def compare_sessions(first, second):
     """-> (ncompared, nrounding, mismatches)"""
     ncomp = nround = 0
     bad = []
+    for ses in (first, second):
+        if "__violation__" in ses:
+            bad.append(("__violation__", first.get("__violation__", ["ok"])[:3],
+                        second.get("__violation__", ["ok"])[:3]))
+            return 0, 0, bad
     for key, r2 in second.items():
         r1 = first.get(key)
         if r1 is None or r1[3] != r2[3]:
